@@ -42,6 +42,9 @@ LEGACY = {
     "Instance('Foo')": lambda: T.Instance("Foo", module="vf.lattice"),
     "Either(Float,Int,None)": lambda: T.Either(T.Float, T.Int, None),
     "Trait(None,int,float)": lambda: T.Trait(None, int, float),
+    # single coercing types: "float <- int", "complex <- float, int" are documented as COERCED
+    "Trait(1.5)": lambda: T.Trait(1.5), "Trait(float)": lambda: T.Trait(float), "Trait(1j)": lambda: T.Trait(1j),
+    "Trait('x',1.5)": lambda: T.Trait("x", 1.5), "Trait(7)": lambda: T.Trait(7), "Trait('s')": lambda: T.Trait("s"),
 }
 
 
